@@ -6,14 +6,15 @@ From Coq Require Import List NArith ZArith Bool Arith Lia.
 Require Import Bebop.front.Tok Bebop.front.Parse Bebop.front.Fmt Bebop.front.TokInv Bebop.front.LexInv Bebop.front.ParseInv Bebop.front.FmtInv.
 Import ListNotations.
 
-Record item := { it_toks : list token; it_need : nat; it_fneed : nat; it_upd : file -> file; it_text : bytes }.
+(* it_blank: whether Format separates the item from a preceding definition by a blank line (it does not before a comment line) *)
+Record item := { it_toks : list token; it_need : nat; it_fneed : nat; it_upd : file -> file; it_text : bytes; it_blank : bool }.
 
 Definition pstep (i : item) : Prop := forall g f tail c, exists g', g <= g' /\
   top_loop (it_need i + g) f [] 0%N false false (mk (res (it_toks i) tail) c false)
   = top_loop g' (it_upd i f) [] 0%N false false (mk tail nlT false).
 Definition fstep (i : item) : Prop := forall g out nl tail c, exists g', g <= g' /\
   format_loop (it_fneed i + g) out false nl (mk (res (it_toks i) tail) c false)
-  = format_loop g' ((if nl then out ++ nlb else out) ++ it_text i) false true (mk tail nlT false).
+  = format_loop g' ((if nl && it_blank i then out ++ nlb else out) ++ it_text i) false true (mk tail nlT false).
 
 (* an item followed by k blank lines *)
 Definition el := (item * nat)%type.
@@ -23,7 +24,7 @@ Definition gneed (l : list el) : nat := fold_right (fun e acc => it_need (fst e)
 Definition gfneed (l : list el) : nat := fold_right (fun e acc => it_fneed (fst e) + snd e + acc) 1 l.
 Definition gfile (l : list el) (f : file) : file := fold_left (fun f e => it_upd (fst e) f) l f.
 Fixpoint gcanon_acc (out : bytes) (nl : bool) (l : list el) : bytes :=
-  match l with [] => out | e :: r => gcanon_acc ((if nl then out ++ nlb else out) ++ it_text (fst e)) true r end.
+  match l with [] => out | e :: r => gcanon_acc ((if nl && it_blank (fst e) then out ++ nlb else out) ++ it_text (fst e)) true r end.
 
 Lemma top_newlines_nl k g f tail :
   top_loop (k + g) f [] 0%N false false (mk (res (repeat nlT k) tail) nlT false) = top_loop g f [] 0%N false false (mk tail nlT false).
@@ -137,20 +138,22 @@ Proof.
 Qed.
 
 (* ---------- the canonical text is a text of the class ---------- *)
+Definition blank_of (e : xel) : nat := if it_blank (fst (fst e)) then 1 else 0.
 Fixpoint greblank (l : list xel) : list xel :=
   match l with
   | [] => []
-  | (ix, _) :: r => match r with [] => [(ix, 0)] | _ => (ix, 1) :: greblank r end
+  | (ix, _) :: r => match r with [] => [(ix, 0)] | e2 :: _ => (ix, blank_of e2) :: greblank r end
   end.
 Definition xe_lay (e : xel) : list (bytes * lexeme) := x_lay (snd (fst e)) ++ repeat ([], NLx) (snd e).
 Definition glayout (l : list xel) : list (bytes * lexeme) := flat_map xe_lay l.
+Definition sep_of (e : el) : bytes := if it_blank (fst e) then nlb else [].
 Fixpoint gctext (l : list el) : bytes :=
-  match l with [] => [] | e :: r => it_text (fst e) ++ match r with [] => [] | _ => nlb ++ gctext r end end.
+  match l with [] => [] | e :: r => it_text (fst e) ++ match r with [] => [] | e2 :: _ => sep_of e2 ++ gctext r end end.
 
-Lemma gcanon_acc_ctext : forall l out nl, gcanon_acc out nl l = out ++ match l with [] => [] | _ => (if nl then nlb else []) ++ gctext l end.
+Lemma gcanon_acc_ctext : forall l out nl, gcanon_acc out nl l = out ++ match l with [] => [] | e :: _ => (if nl then sep_of e else []) ++ gctext l end.
 Proof.
   induction l as [|e r IH]; intros out nl; [cbn; now rewrite app_nil_r|].
-  cbn [gcanon_acc gctext]. rewrite IH. destruct nl, r; cbn [app]; rewrite <- ?app_assoc, ?app_nil_r; reflexivity.
+  cbn [gcanon_acc gctext]. rewrite IH. unfold sep_of. destruct nl, (it_blank (fst e)), r; cbn [andb app]; rewrite <- ?app_assoc, ?app_nil_r; reflexivity.
 Qed.
 Lemma gcanon_ctext l : gcanon l = gctext l.
 Proof. unfold gcanon. rewrite gcanon_acc_ctext. destruct l; reflexivity. Qed.
@@ -178,20 +181,24 @@ Lemma greblank_ok l : Forall xel_ok l -> Forall xel_ok (greblank l).
 Proof.
   induction 1 as [|[ix k] l H _ IH]; [constructor|]. cbn [greblank]. destruct l; [constructor; [exact H|constructor]|constructor; [exact H|exact IH]].
 Qed.
+Lemma greblank_head e l : exists k, greblank (e :: l) = (fst e, k) :: match l with [] => [] | _ => greblank l end.
+Proof. destruct e as [ix k0]. cbn [greblank fst]. destruct l; eauto. Qed.
 Lemma render_glayout : forall l, Forall xel_ok l -> render (glayout (greblank l)) [] = gctext (map xe_el (greblank l)).
 Proof.
   induction 1 as [|[[i x] k] l H Hl IH]; [reflexivity|]. cbn [greblank].
   destruct l as [|e2 l2].
   - cbn [glayout flat_map app map gctext xe_el fst snd]. unfold xe_lay. cbn [fst snd repeat]. rewrite !app_nil_r, (ok_render _ _ H). now rewrite app_nil_r.
   - set (r := greblank (e2 :: l2)) in *. cbn [glayout flat_map]. fold (glayout r). unfold xe_lay at 1. cbn [fst snd].
-    rewrite !render_app, (ok_render _ _ H), render_nls, IH. cbn [repeat app map gctext xe_el fst snd].
-    pose proof (greblank_ne e2 l2) as Hr. fold r in Hr. destruct (map xe_el r) eqn:E; [congruence|]. reflexivity.
+    rewrite !render_app, (ok_render _ _ H), render_nls, IH. cbn [map gctext xe_el fst snd].
+    pose proof (greblank_head e2 l2) as [k2 Er]. fold r in Er. rewrite Er. cbn [map xe_el fst snd gctext].
+    unfold blank_of, sep_of, xe_el. cbn [fst snd]. destruct (it_blank (fst (fst e2))); reflexivity.
 Qed.
 Lemma gctext_reblank l : gctext (map xe_el (greblank l)) = gctext (map xe_el l).
 Proof.
   induction l as [|[ix k] l IH]; [reflexivity|]. cbn [greblank]. destruct l as [|e2 l2]; [reflexivity|].
   set (r := greblank (e2 :: l2)) in *. cbn [map gctext xe_el fst snd]. rewrite IH.
-  pose proof (greblank_ne e2 l2) as Hr. fold r in Hr. destruct (map xe_el r) eqn:E; [congruence|]. reflexivity.
+  pose proof (greblank_head e2 l2) as [k2 Er]. fold r in Er. rewrite Er. cbn [map xe_el fst snd].
+  destruct e2 as [ix2 k2']. cbn [map xe_el fst snd]. reflexivity.
 Qed.
 Lemma gfile_reblank : forall l f, gfile (map xe_el (greblank l)) f = gfile (map xe_el l) f.
 Proof.
